@@ -2,14 +2,17 @@
 import collections
 
 from props import pipeline
-from vlib import reflp, workload
+import copy
+
+from vlib import pulp_highs, reflp, workload
 
 ASSUMPTIONS = [
-    "reference = independently formulated LP (vlib/reflp.py) solved by scipy HiGHS; verdict |z_repo - z_ref| <= 5e-6*max(1,|z_ref|) in both directions",
+    "reference = independently formulated LP (vlib/reflp.py) solved by scipy HiGHS. Two comparisons, both directions: (1) the PuLP model the repository's code builds, solved by HiGHS without CBC, must agree with the reference to 5e-7*max(1,|z|) (formulation; both solved with HiGHS feasibility tolerances 1e-10, observed agreement 2.5e-9); (2) the value CBC reports must agree to 1e-4*max(1,|z|) (CBC's feasibility tolerance is amplified by the seaweed growth chain on world-scale instances: observed up to 3.0e-5 below the optimum, WOR seaweed 96 months)",
     "HiGHS status != optimal or time limit -> instance inconclusive, never a violation",
     "the animal round is compared with human consumption pinned inside the band the model documents (1e-5, 1e-4 below 10 M people)",
 ]
-TOL = 5e-6
+TOL = 5e-7  # reference vs. the code-built model, both solved by HiGHS
+TOL_REPORTED = 1e-4  # reference vs. the value CBC reports
 
 
 def gen_cases(tier, seed):
@@ -37,15 +40,26 @@ def monitor(tr, case):
         zr, z = r["z"], lp.objective
         gap = (z - zr) / max(1.0, abs(zr))
         rec["gap_rel"] = gap
-        if abs(gap) > TOL:
+        # the model the repository builds, solved without CBC: separates formulation errors from solver noise
+        zm, stm = pulp_highs.first_stage_optimum(copy.copy(lp.consts), dict(lp.time_consts), lp.kind, lp.mhc)
+        rec["z_code_model_highs"] = zm
+        gap_m = None if zm is None else (zm - zr) / max(1.0, abs(zr))
+        rec["gap_model_rel"] = gap_m
+        data = {"iso": case["iso"], "round": k + 1, "kind": lp.kind, "gap_rel": gap, "gap_model_rel": gap_m, "tag": case.get("tag")}
+        tol_f = 5e-6 if r.get("loose_tolerances") else TOL
+        rec["reference_loose_tolerances"] = bool(r.get("loose_tolerances"))
+        if gap_m is not None and abs(gap_m) > tol_f:
             r2 = reflp.ref_lp(lp.kind, lp.consts, lp.time_consts, lp.mhc, physical_meat=False)
-            if r2["status"] == 0 and abs(z - r2["z"]) <= TOL * max(1.0, abs(r2["z"])) and gap > 0:
+            if r2["status"] == 0 and abs(zm - r2["z"]) <= TOL * max(1.0, abs(r2["z"])) and gap_m > 0:
                 mech = "optimum_exceeds_physical_meat_before_slaughter"
             else:
-                mech = "optimum_above_reference" if gap > 0 else "optimum_below_reference"
-            viol.append({"mech": mech, "msg": "%s round %d (%s): model reports %.8g, independent optimum %.8g (rel gap %.3e)" % (
-                case["iso"], k + 1, lp.kind, z, zr, gap),
-                "data": {"iso": case["iso"], "round": k + 1, "kind": lp.kind, "gap_rel": gap, "tag": case.get("tag")}})
+                mech = "formulation_optimum_above_reference" if gap_m > 0 else "formulation_optimum_below_reference"
+            viol.append({"mech": mech, "msg": "%s round %d (%s): the model the code builds has optimum %.9g, the independent formulation %.9g (rel gap %.3e; CBC reported %.8g)" % (
+                case["iso"], k + 1, lp.kind, zm, zr, gap_m, z), "data": data})
+        elif abs(gap) > TOL_REPORTED or (gap_m is None and abs(gap) > TOL):
+            mech = "reported_optimum_above_reference" if gap > 0 else "reported_optimum_below_reference"
+            viol.append({"mech": mech, "msg": "%s round %d (%s): CBC reports %.8g, independent optimum %.8g (rel gap %.3e; code-built model under HiGHS %r)" % (
+                case["iso"], k + 1, lp.kind, z, zr, gap, zm), "data": data})
         lps.append(rec)
     return viol, {"audited": sum(1 for x in lps if "gap_rel" in x), "lps": lps}
 
@@ -75,11 +89,13 @@ def summarize(cases, records, tier):
                     tight[f] += 1
             else:
                 ninc += 1
+    gm = sorted(abs(lp["gap_model_rel"]) for r in ok for lp in r["obs"].get("lps", []) if lp.get("gap_model_rel") is not None)
     gaps.sort()
     cov.update(instances_by_kind=dict(kinds), reference_not_optimal_instances=ninc,
                constraint_family_tight_at_reference_optimum_in_instances=dict(tight),
                abs_rel_gap_quantiles={"p50": gaps[len(gaps) // 2] if gaps else None, "p99": gaps[int(len(gaps) * 0.99)] if gaps else None,
-                                      "max": gaps[-1] if gaps else None})
+                                      "max": gaps[-1] if gaps else None},
+               abs_rel_gap_code_model_vs_reference={"p50": gm[len(gm) // 2] if gm else None, "max": gm[-1] if gm else None, "n": len(gm)})
     if kinds.get("to_animals", 0) == 0 and "inconclusive_reason" not in cov:
         cov["inconclusive_reason"] = "no feed-maximising round was compared"
     if ninc > 0.1 * max(1, sum(kinds.values())) and "inconclusive_reason" not in cov:
